@@ -350,6 +350,34 @@ pub fn run(ctx: &mut Ctx) {
         }
         case += 1;
     }
+    // ---- payloads beyond typical internal thresholds (4 MiB, 8 MiB): one-shot helpers + one streamed mode
+    for (k, n) in [(4usize << 20) + 1, 8 << 20, (9 << 20) + 17, (16 << 20) + 3].iter().enumerate() {
+        if k == 3 && ctx.quick() {
+            case += 1;
+            continue;
+        }
+        if ctx.mine(case) {
+            ctx.begin(case);
+            let mut rng = ctx.rng("c14.big", k as u64);
+            // half repetitive, half random: compressible but not trivially so
+            let mut x = rng.bytes(n / 64);
+            while x.len() < n / 2 {
+                let l = x.len().min(n / 2 - x.len());
+                x.extend_from_within(..l);
+            }
+            let tail = rng.bytes(n - x.len());
+            x.extend_from_slice(&tail);
+            for codec in [R::C_NONE, R::C_GZIP, R::C_ZSTD] {
+                one_shot(ctx, "multi-megabyte", &x, codec, &mut rng, None, &mut 0);
+                streamed(ctx, "multi-megabyte", &x, codec, &Sched::Fixed(1 << 20), &Sched::Fixed(65_536), k % 2 == 1, &mut rng);
+            }
+            ctx.case(hash_bytes(&x), true);
+            ctx.max("payload_bytes", x.len() as u64);
+            ctx.count("payload.multi_megabyte");
+            ctx.end(case);
+        }
+        case += 1;
+    }
     // ---- every composition of the write chunks for |x| <= 12
     for n in 1..=12usize {
         if ctx.mine(case) {
